@@ -467,8 +467,21 @@ pub fn search(tier: &str, seed: u64, s: &mut Search) {
         let _ = std::fs::remove_file(&out);
     }
     // ---- the usvg command: its output is the library serialisation of the same input with the same options
-    for (k, (_class, data, path)) in inputs.iter().enumerate().filter(|(k, _)| k % 3 == 0) {
-        let Some(p) = path else { continue };
+    // a document whose numbers have more digits than any precision keeps
+    let digits = r##"<svg xmlns="http://www.w3.org/2000/svg" width="120" height="100"><linearGradient id="lg" gradientTransform="matrix(0.87654321 0.12345678 -0.23456789 0.98765432 0.0123456 0.0654321)"><stop offset="0.123456" stop-color="red"/><stop offset="0.87654321" stop-color="blue"/></linearGradient><g transform="matrix(1.23456789 0.1234567 -0.7654321 0.98765432 10.123456 20.654321)"><path d="M 10.123456 20.654321 L 33.3333333 44.4444444 Q 1.0000001 2.7182818 3.1415926 50.505050 Z" fill="url(#lg)" stroke="black" stroke-width="1.23456789"/></g></svg>"##;
+    let digits_path = dir.join("digits.svg");
+    let _ = std::fs::write(&digits_path, digits);
+    let mut usvg_inputs: Vec<(Vec<u8>, PathBuf)> = vec![];
+    for _ in 0..(if tier == "thorough" { 40 } else { 8 }) {
+        usvg_inputs.push((digits.as_bytes().to_vec(), digits_path.clone()));
+    }
+    for (k, (_class, data, path)) in inputs.iter().enumerate() {
+        if path.is_none() && _class != "generated" {
+            continue;
+        }
+        usvg_inputs.push((data.clone(), path.clone().unwrap_or_else(|| dir.join(format!("in{}.svg", k)))));
+    }
+    for (k, (data, p)) in usvg_inputs.iter().enumerate() {
         let Ok(text) = std::str::from_utf8(data) else { continue };
         if text.contains("<text") {
             continue; // fonts: the two sides would need the same database; text is covered through resvg above
@@ -485,7 +498,11 @@ pub fn search(tier: &str, seed: u64, s: &mut Search) {
             wo.coordinates_precision = cp;
         }
         if rng.chance(1, 2) {
-            let tp = rng.range(2, 9) as u8;
+            // mostly different from the coordinates precision, so that a mix-up of the two shows
+            let mut tp = rng.range(2, 9) as u8;
+            if tp == wo.coordinates_precision && rng.chance(3, 4) {
+                tp = if tp > 4 { tp - 3 } else { tp + 3 };
+            }
             a.extend(["--transforms-precision".into(), tp.to_string()]);
             wo.transforms_precision = tp;
         }
@@ -508,7 +525,7 @@ pub fn search(tier: &str, seed: u64, s: &mut Search) {
         let r = run("usvg", &a, None, &dir);
         let o = crate::corpus::opts_for(Some(p));
         let lib = pan::catch(|| usvg::Tree::from_data(data, &o).ok().map(|t| t.to_string(&wo)));
-        let key = format!("{} [{}]", p.display(), optkey);
+        let key = format!("{} [{}]", if p.starts_with(&dir) { text.chars().take(600).collect::<String>() } else { p.display().to_string() }, optkey);
         s.case("usvg", &key, r.code == Some(0));
         match (r.code, lib) {
             (Some(0), Ok(Some(want))) => {
